@@ -16,6 +16,10 @@ THEOREMS = [
     "Mpc.C05_stream_decode",
     "Mpc.C05_stream_concrete",
     "Mpc.C05_gc_safe",
+    "Mpc.C05_walloc_remove_exact",
+    "Mpc.C05_walloc_lookup_exact",
+    "Mpc.C05_const_pad_partial",
+    "Mpc.C05_const_second_width_witness",
     "Mpc.C05_gc_safe_transitive",
     "Mpc.C05_gc_witnesses_now_safe",
     "Mpc.C05_gcOld_safe_partial",
@@ -67,9 +71,23 @@ def facts(ctx):
                              r"if set\.Bit\(int\(alias\.ID\)\) == 1 \|\| aliasLive\(alias\.ID\) \{\s*return true", body)),
               bool(re.search(r"if set\.Bit\(int\(in\.ID\)\) == 0 \{\s*if !aliasLive\(in\.ID\) \{", body))],
              [True, True])
+    wa = vlib.strip_go_comments(vlib.repo_file("compiler/ssa/wire_allocator.go"))
+    m = re.search(r"hash\s+\[(\d+)\]\*allocByValue", wa)
+    ctx.fact("number of hash buckets of WireAllocator (harness: numBuckets)", int(m.group(1)) if m else None, 10240)
+    rm = vlib.go_func_body("compiler/ssa/wire_allocator.go", r"\(walloc \*WireAllocator\) remove\(")
+    ctx.fact("WireAllocator.remove walks the chain and unlinks the header whose key equals the value",
+             bool(rm) and bool(re.search(r"for ptr := &walloc\.hash\[hash\]; \*ptr != nil; ptr = &\(\*ptr\)\.next \{\s*"
+                                         r"if \(\*ptr\)\.key\.Equal\(&v\) \{\s*ret := \*ptr\s*\*ptr = \(\*ptr\)\.next\s*return ret",
+                                         vlib.strip_go_comments(rm))), True)
+    lk = vlib.go_func_body("compiler/ssa/wire_allocator.go", r"\(walloc \*WireAllocator\) lookup\(")
+    ctx.fact("WireAllocator.lookup moves a header to the bucket head only when found at depth > 2",
+             bool(lk) and "if count > 2 {" in lk and "walloc.hash[hash] = alloc" in lk, True)
     st = vlib.go_func_body("compiler/ssa/streamer.go", r"\(prog \*Program\) Stream\(")
     ctx.fact("operands special-cased (not garbled via circuitGenerators) by Program.Stream",
              case_labels(st, r"switch instr\.Op \{"), EXPECT_STREAM_CASES)
+    ctx.fact("Program.Stream re-widens an *mpa.Int constant used at a second width from its own value and size",
+             bool(st) and "in.ConstValue.(*mpa.Int); ok && in.Const" in st and "own := types.Size(mi.TypeSize())" in st
+             and "if src < own && in.Bit(src) {" in st, True)
     gg = vlib.go_func_body("circuit/stream_garble.go", r"\(stream \*Streaming\) garbleGate\(")
     flags = re.findall(r"op \|= (0b[01]{8})", vlib.strip_go_comments(gg or ""))
     ctx.fact("op byte flags of Streaming.garbleGate (aTmp, bTmp, cTmp, 16-bit ids)", flags, EXPECT_FLAGS)
@@ -113,7 +131,7 @@ def run(ctx):
         if ctx.broken and not ctx.fails:
             for s in range(ctx.seed + 7000, ctx.seed + 7003):
                 ops, out, meta = ctx.run_hx("oracle", 2000, seed=s, tag="-widen", timeout=1500,
-                                            extra_args=["-extra", "big=30"])
+                                            extra_args=["-extra", "big=30,large"])
                 ctx.absorb_meta(meta, prefix="widen_")
                 if ctx.fails:
                     break
@@ -131,6 +149,15 @@ def run(ctx):
                    "persistent ids were small, both id encodings in that session",
                    c.get("programs_with_tmp_index_over_65535_and_small_ids", 0) > 0 and c.get("codec_idclass_4", 0) > 0,
                    str(c))
+        ctx.oblige("simultaneously live values shared allocator hash buckets: chains of 2, 3 and 4 headers, gc of "
+                   "head and of non-head headers, move-to-front lookups",
+                   all(c.get(k, 0) > 0 for k in ("programs_with_bucket_chain_2", "programs_with_bucket_chain_3",
+                                                 "programs_with_bucket_chain_4", "gc_of_non_head_header",
+                                                 "gc_in_chain_len2_pos0", "gc_in_chain_len2_pos1",
+                                                 "gc_in_chain_len3_pos1", "bucket_lookup_moved_to_front")),
+                   str({k: v for k, v in c.items() if "bucket" in k or "chain" in k}))
+        if not quick:
+            ctx.oblige("large real examples (sort, aes) ran in streaming mode", c.get("class_large", 0) >= 2, str(c))
         want_ops = ["amov", "concat", "lshift", "rshift", "srshift", "slice", "mov", "smov", "phi", "index"]
         missing = [o for o in want_ops if c.get("ssaop_" + o, 0) == 0]
         ctx.oblige("every rewiring operand (and phi, index) occurred in the streamed programs", not missing, str(missing))
@@ -140,7 +167,9 @@ def run(ctx):
         "oracle: seeded grammar-based MPCL programs in 4 classes (alias-heavy with few widths, mixed, unsized main "
         "arguments instantiated from the input sizes, garbler argument [>1024]uint64 so that wire ids exceed 65535, a boundary sweep around id 65536, and small "
         "programs with ONE instruction circuit of more than 65536 wires - wide division/modulo/multiplication - so that "
-        "temporary wire indexes exceed 65535 while persistent ids are small) "
+        "temporary wire indexes exceed 65535 while persistent ids are small; a collide class that renames identifiers - "
+        "names searched with the real Value.HashCode - so that 2..4 simultaneously live values share a bucket of the "
+        "allocator's hash table; in the thorough tier two large library programs: sort, aes) "
         "with scalar/array/struct arguments, 1-4 results incl. arrays, random inputs, ideal and Chou-Orlandi OT, seeded "
         "read fragmentation; every program's SSA is analysed per bit for id ranges freed while still pointed at. "
         "distinct = distinct Lean op lines (pre-GC step lists with allocator tables; Streaming.Garble cases)")
